@@ -408,16 +408,17 @@ def c17_set(full):
 
 
 PROPS['C17'] = {
-    'verus': [],
+    'verus': ['u_approx'],
     'kani': {'quick': [kset('c17', c17_set(False), timeout=2400, extra=['--solver', 'kissat'])],
              'thorough': [kset('c17', c17_set(True), timeout=6000, extra=['--solver', 'kissat'])]},
     'probe': False,
-    'level': 'model_checking',
-    'explanation': 'Kani harnesses through the real approx crate: for every type implementing the approx traits (Poly0..Poly8, PolyN, Log<T>, IntOfLog<T>, IntOfLogPoly4, '
+    'level': 'other',
+    'explanation': 'Twice. (1) Verus, unit u_approx: the real bodies of all 60 approx-trait functions (default_epsilon, abs_diff_eq, default_max_relative, relative_eq of 15 types) are verified, for ALL values, ALL tolerances and generic piece types, against the contract "result == conjunction of the f64-level relation over every corresponding number, and equal lengths for PolyN / Piecewise"; the approx crate\'s own impls for f64, arrays/slices and Vec are trusted contracts read off its source. (2) Kani harnesses through the real approx crate (this also exercises the dependency\'s slice/array impls that (1) trusts): for every type implementing the approx traits (Poly0..Poly8, PolyN, Log<T>, IntOfLog<T>, IntOfLogPoly4, '
                    'Segment<T>, Piecewise<T>) abs_diff_eq and relative_eq equal the conjunction of f64::abs_diff_eq / f64::relative_eq over every corresponding pair of '
                    'numbers (coefficients, additive constants, breakpoints) under the same tolerances, and PolyN / Piecewise of different lengths are never approximately '
                    'equal. Reflexivity, symmetry, implication by == and sensitivity to a single perturbed number follow from the conjunction form.',
-    'assumptions': ['bounded: ' + TINY + ' (float comparison against products is intractable for CBMC on full-range doubles)',
+    'assumptions': ['u_approx: approx traits declared in the template with Rhs = Self and without the PartialEq supertrait (RelativeEq impl headers of Log/IntOfLog/Piecewise carry the implied `T: PartialEq` explicitly); trusted contracts for the dependency\'s impls: f64 (uninterpreted relations f_ade/f_rel, default = f_eps()), [A; N] and Vec<A> (equal length && element relation at every index), as in approx-0.5.1 src/abs_diff_eq.rs and src/relative_eq.rs',
+                    'bounded: ' + TINY + ' (float comparison against products is intractable for CBMC on full-range doubles)',
                     'bounded: PolyN lengths <= 3, Piecewise pieces <= 2 (quick) / 3 (thorough); wrappers instantiated with Poly1',
                     'the conjunction oracle calls f64::abs_diff_eq / relative_eq of the approx crate itself (trusted as the meaning of the tolerances)'],
 }
